@@ -6,7 +6,7 @@ package test
 // changed it (a key list / order a map value remembers from an earlier use must
 // not leak Go's iteration order into a later result).  This part enumerates
 // EVERY sequence of <= L map operations (at most one of them an order-consuming
-// read K / V / Z, see c15mutMaxReads) over the alphabet
+// read K / V / Z, see c15mutMaxReads; sequences containing Z have <= L-1 steps) over the alphabet
 //
 //	S<k>  DUP k v SETITEM   (k in a..e; v = 1 + position of the step, so overwrites are visible)
 //	R<k>  DUP k REMOVE      (k in a..e; present and absent keys)
@@ -184,6 +184,8 @@ func c15mutModel(init string, seq []string) (class string, entries int) {
 
 func c15mutations(r *vh.Run, replay bool, rc c15case) {
 	maxLen := r.Pick(3, 4)
+	// sequences with a Runtime.Serialize step (two ranges: cycle detector and key list, so the number of executions is squared) are shorter
+	zMaxLen := r.Pick(2, 3)
 	t0 := time.Now()
 	defer func() { r.Set("mutations_wall_s", time.Since(t0).Seconds()) }()
 	if replay {
@@ -230,13 +232,19 @@ func c15mutations(r *vh.Run, replay bool, rc c15case) {
 			}
 			stop := false
 			visit := func(d []int) bool {
-				reads := 0
-				for _, x := range d {
+				reads, zAt := 0, -1
+				for i, x := range d {
 					if strings.Contains("KVZ", al[x]) {
 						reads++
 					}
+					if al[x] == "Z" {
+						zAt = i
+					}
 				}
 				if reads > c15mutMaxReads {
+					return true
+				}
+				if zAt >= 0 && len(d) > zMaxLen {
 					return true
 				}
 				idx++
